@@ -341,13 +341,21 @@ class Dataset:
     def __init__(self, data_vars=None, coords=None, attrs=None):
         self._vars = {}
         self._coord_names = set()
-        self.attrs = dict(attrs) if attrs is not None else {}
+        self._attrs = dict(attrs) if attrs is not None else {}
         self.encoding = {}
         for k, v in (data_vars or {}).items():
             self[k] = v
         for k, v in (coords or {}).items():
             self[k] = v
             self._coord_names.add(k)
+
+    @property
+    def attrs(self):
+        return self._attrs
+
+    @attrs.setter
+    def attrs(self, value):
+        self._attrs = dict(value)          # xarray copies the mapping on assignment
 
     # -- mapping protocol
     def __contains__(self, k):
@@ -399,8 +407,8 @@ class Dataset:
         d = self.__dict__
         if k in d.get("_vars", {}):
             return self[k]
-        if k in d.get("attrs", {}):
-            return d["attrs"][k]
+        if k in d.get("_attrs", {}):
+            return d["_attrs"][k]
         raise AttributeError(f"'Dataset' object has no attribute '{k}'")
 
     def _dim_caps(self):
